@@ -182,6 +182,17 @@ class ElementLocator : public BaseElementLocator
         return element_addresses_begin;
     }
 
+    template <class Reference>
+    auto relocate_at(std::size_t index, std::byte* memory_begin, const Reference& source)
+    {
+        const auto element_begin =
+            ElementTraits::align_for_first_parameter(memory_begin + this->element_addresses_[index]);
+        this->element_addresses_[index] = element_begin - memory_begin;
+        const auto element_end = ElementTraits::relocate_element_at(element_begin, source);
+        this->element_addresses_[index + 1] = element_end - memory_begin;
+        return element_end;
+    }
+
     void trivially_copy_into(const std::byte* CNTGS_RESTRICT old_memory_begin,
                              std::byte* CNTGS_RESTRICT new_memory_begin) const noexcept
     {
@@ -288,6 +299,12 @@ class AllFixedSizeElementLocator : public BaseAllFixedSizeElementLocator
     {
         return ElementTraits::emplace_at_aliased(element_address(index, memory_begin), fixed_sizes,
                                                  std::forward<Args>(args)...);
+    }
+
+    template <class Reference>
+    auto relocate_at(std::size_t index, std::byte* memory_begin, const Reference& source)
+    {
+        return ElementTraits::relocate_element_at(element_address(index, memory_begin), source);
     }
 
     void trivially_copy_into(const std::byte* old_memory_begin, std::byte* new_memory_begin) const noexcept
